@@ -3,11 +3,15 @@
    independent, i.e. the prepare/measure set is informationally complete and the expansion is unique — which is what makes the
    16 basis maps rho_p (x) E_m^T a basis of the 4x4 Choi matrices and the dual-frame contraction exact for every (held-out)
    preparation and every completely positive intervention, by linearity in each slot.
-   PARTIAL — not mechanised: the dual frame computed by numpy's pinv, the index bookkeeping of the 16^k sequences, the weighted
-   aggregation, and that the simulated segments realise the exact evolution (C05); all tied numerically. *)
+   Also mechanised: the bookkeeping of tomography.run — job index -> (sequence, trajectory), aggregation per sequence, placement in the
+   tensor through the SHUFFLED sequence list: every tensor entry is the average over the trajectories of its own tuple, each run counted
+   once, whatever the shuffle.
+   PARTIAL — not mechanised: the dual frame computed by numpy's pinv, and that the simulated segments realise the exact evolution
+   (C05); tied numerically. *)
 From Coq Require Import Reals List.
 From Coquelicot Require Import Coquelicot.
-From Yaqs Require Import Base.CMat Model.Tomo Proofs.TomoP.
+From Yaqs Require Import Base.CMat Model.Tomo Proofs.TomoP Model.TomoAgg Proofs.TomoAggP.
+From Coq Require Import QArith Permutation.
 
 Theorem C17_probe_states_complete : forall a b c d : C,
   comb (coef_zeros a b c d) (coef_ones a b c d) (coef_plus a b c d) (coef_yplus a b c d) = mat2 a b c d.
@@ -17,3 +21,16 @@ Theorem C17_probe_states_independent : forall k0 k1 kp ky : C,
   comb k0 k1 kp ky = mat2 c0 c0 c0 c0 -> k0 = c0 /\ k1 = c0 /\ kp = c0 /\ ky = c0.
 Proof. exact states_independent. Qed.
 Print Assumptions C17_probe_states_independent.
+
+Theorem C17_every_sequence_gets_its_own_average : forall nseq ntraj val i, (0 < ntraj)%nat -> (i < nseq)%nat ->
+  aggregated nseq ntraj val i = average ntraj (val i).
+Proof. exact aggregated_is_average. Qed.
+Print Assumptions C17_every_sequence_gets_its_own_average.
+Theorem C17_tensor_entry_is_own_average : forall seqs ntraj f sigma, (0 < ntraj)%nat -> In sigma seqs ->
+  tensor_at seqs ntraj f sigma = Some (average ntraj (f sigma)).
+Proof. exact tensor_entry_is_own_average. Qed.
+Print Assumptions C17_tensor_entry_is_own_average.
+Theorem C17_shuffle_irrelevant : forall seqs seqs' ntraj f sigma, (0 < ntraj)%nat -> Permutation seqs seqs' -> In sigma seqs ->
+  tensor_at seqs ntraj f sigma = tensor_at seqs' ntraj f sigma.
+Proof. exact shuffle_irrelevant. Qed.
+Print Assumptions C17_shuffle_irrelevant.
